@@ -12,7 +12,8 @@ PID = 'C15'
 LEVEL = 'exploration'
 RULE = ('generated sources (13 types x 2 byte orders x shapes incl. first axis 0, ragged arrays incl. no subarrays / only '
         'empty subarrays) x target dtype {None, any type castable with a defined result, either byte order} x chunklen '
-        '{1, 3, len, None (sparse)} x accessmode x metadata {none, nested}; after the copy a random mutation sequence '
+        '{1, 3, len, None (sparse)} x accessmode x metadata {none, nested} x target {fresh path, path holding another array with other metadata '
+        '(overwrite=True)}; after the copy a random mutation sequence '
         '(assign, append, truncate, metadata change, delete) is applied to one side while the other side is re-checked; '
         'archives x {xz, gz, bz2} x {Array, RaggedArray} x filepath {derived, given} x overwrite flag, extracted with '
         'tarfile and compared byte-for-byte with the directory, re-opened and compared. Non-trivial = source with >= 1 '
@@ -21,7 +22,7 @@ EXHAUSTIVE = False
 ASSUMPTIONS = ['casts NumPy leaves platform-defined are not requested; the index type of a ragged copy is not judged']
 ANCHORS = ['array:Array.copy', 'array:asarray', 'array:_archunkgenerator', 'raggedarray:RaggedArray.copy',
            'raggedarray:asraggedarray', 'datadir:DataDir.archive', 'array:Array.archive', 'raggedarray:RaggedArray.archive']
-REQUIRED = ['mon.copy_equals_cast', 'mon.metadata_equal', 'mon.independence', 'mon.archive_bytes', 'mon.archive_reopen',
+REQUIRED = ['mon.copy_overwrites', 'mon.copy_equals_cast', 'mon.metadata_equal', 'mon.independence', 'mon.archive_bytes', 'mon.archive_reopen',
             'mon.archive_overwrite_gate', 'mon.ragged_copy']
 MIN_NONTRIVIAL = {'quick': 1500, 'thorough': 12000}
 
@@ -37,7 +38,8 @@ def cases(tier, seed):
         nt, bo = combos[k % len(combos)]
         yield {'t': 'copy', 'numtype': nt, 'bo': bo, 'shape': list(SHAPES[(k // 26) % len(SHAPES)] if k < 26 * 7 else rng.choice(SHAPES)),
                'dtypearg': [None, 'other', 'swap'][k % 3], 'chunklen': [1, 3, 'len', None][k % 4] if k % 40 else None,
-               'accessmode': ['r', 'r+'][k % 2], 'md': k % 3 == 0, 'mutate': ['src', 'copy'][(k // 2) % 2], 'k': k}
+               'accessmode': ['r', 'r+'][k % 2], 'md': k % 3 == 0, 'mutate': ['src', 'copy'][(k // 2) % 2], 'k': k,
+               'over': [None, None, 'array_md', 'bigger_array', 'array_nomd'][k % 5]}
     n = 500 if tier == 'quick' else 5000
     for k in range(n):
         nt, bo = combos[(k * 3) % len(combos)]
@@ -46,7 +48,7 @@ def cases(tier, seed):
             pat = 'mixed'      # copying a ragged array without subarrays costs ~1 s (create_raggedarray)
         yield {'t': 'rcopy', 'numtype': nt, 'bo': bo, 'pattern': pat, 'atom': list([(), (2,), (1, 2)][k % 3]),
                'dtypearg': [None, 'other', 'swap'][k % 3], 'accessmode': ['r', 'r+'][k % 2], 'md': k % 2 == 0,
-               'mutate': ['src', 'copy'][(k // 2) % 2], 'k': k}
+               'mutate': ['src', 'copy'][(k // 2) % 2], 'k': k, 'over': [None, None, 'ragged_md', 'ragged_nomd'][k % 4]}
     for comp in ('xz', 'gz', 'bz2'):
         for kind in ('Array', 'RaggedArray', 'ArrayEmpty', 'RaggedNoSub'):
             for given in (False, True):
@@ -94,8 +96,14 @@ def run_copy(case, env, res, d):
     cl = case['chunklen']
     cl = max(1, shape[0]) if cl == 'len' else cl
     expected = base if tgt is None else base.astype(tgt)
+    over = case.get('over')
+    if over:       # the target path already holds another array (with its own metadata): overwrite=True must replace it
+        D.asarray(d / 'copy', np.arange(40 if over == 'bigger_array' else 3, dtype='int64'),
+                  metadata=None if over == 'array_nomd' else {'stale': 'old', 'fs': 1, 'more': [1, 2]})
+        res.count('mon.copy_overwrites')
+    res.dim('target', over or 'fresh path')
     try:
-        cp = src.copy(d / 'copy', dtype=tgt, chunklen=cl, accessmode=case['accessmode'])
+        cp = src.copy(d / 'copy', dtype=tgt, chunklen=cl, accessmode=case['accessmode'], overwrite=bool(over))
     except Exception as e:
         res.fail(f'copy-raised:{type(e).__name__}:{"empty" if shape[0] == 0 else "nonempty"}-source',
                  f'Array.copy(dtype={tgt}, chunklen={cl}) of {src_dtype.str}{list(shape)} raised {type(e).__name__}: {str(e)[:160]}', **case)
@@ -169,8 +177,14 @@ def run_rcopy(case, env, res, d):
         src = D.RaggedArray(d / 'src', accessmode='r+')
     res.count('mon.ragged_copy')
     res.dim('ragged_pattern', case['pattern'])
+    over = case.get('over')
+    if over:
+        D.asraggedarray(d / 'copy', [[9, 9, 9], [8]], dtype='int64',
+                        metadata=None if over == 'ragged_nomd' else {'stale': 'old', 'fs': 1})
+        res.count('mon.copy_overwrites')
+    res.dim('target', over or 'fresh path')
     try:
-        cp = src.copy(d / 'copy', dtype=tgt, accessmode=case['accessmode'])
+        cp = src.copy(d / 'copy', dtype=tgt, accessmode=case['accessmode'], overwrite=bool(over))
     except Exception as e:
         res.fail(f'rcopy-raised:{type(e).__name__}:{case["pattern"]}',
                  f'RaggedArray.copy(dtype={tgt}) of pattern {lens} atom {atom} raised {type(e).__name__}: {str(e)[:160]}; '
@@ -282,6 +296,9 @@ def run_archive(case, env, res, d):
         res.fail('archive:replaced-without-overwrite', 'second archive() without overwrite=True succeeded', **case)
         return
     except Exception:
+        if not want_path.exists():
+            res.fail('archive:refused-but-removed', 'second archive() without overwrite=True raised, but the existing archive is gone', **case)
+            return
         if want_path.read_bytes() != old:
             res.fail('archive:refused-but-modified', 'refused second archive() changed the existing archive', **case)
             return
